@@ -220,6 +220,7 @@ func c06Run(r *core.Run) {
 	}
 	check := func(item, kind string, a *c06Artifact, level int, ts [5]time.Time) {
 		want, why := c06Model(arts, poolWin, level, ts)
+		w.PCS.ResetTransient()
 		o := verifyRaw(raw, mkOpts(level, w.PCS, w.Pool, inZones(ts)))
 		r.Eval()
 		got := o.Accepted()
@@ -350,6 +351,47 @@ func c06Run(r *core.Run) {
 			check(item, "skewed-time-set", nil, level, ts)
 		}
 		r.Fault("clock:per_field_skew", true)
+		r.EndItem()
+	}
+	// a cache in front of the service answers the first request for TCB Info (or the QE identity) with an edition
+	// that is past its nextUpdate and any further request with the current one, while ANOTHER artifact is out of
+	// date at its own time: whatever a verifier does about the stale first answer, the other artifact's expiry
+	// still decides
+	if r.Item("stale-edition-served-first") {
+		for _, route := range []string{world.RouteTcb, world.RouteQE} {
+			var cur *world.Endpoint
+			var stale []byte
+			if route == world.RouteTcb {
+				for _, k := range core.SortedKeys(w.PCS.Tcb) {
+					cur = w.PCS.Tcb[k]
+				}
+				sn, si := w.Tcb.Next, w.Tcb.Issue
+				w.Tcb.Next, w.Tcb.Issue = T0.AddDate(0, 0, -30), T0.AddDate(0, 0, -60)
+				stale = world.SignedBody("tcbInfo", w.Tcb.JSON(), w.TcbSignerInTcb.Key)
+				w.Tcb.Next, w.Tcb.Issue = sn, si
+			} else {
+				cur = w.PCS.QE
+				sn, si := w.QE.Next, w.QE.Issue
+				w.QE.Next, w.QE.Issue = T0.AddDate(0, 0, -30), T0.AddDate(0, 0, -60)
+				stale = world.SignedBody("enclaveIdentity", w.QE.JSON(), w.TcbSignerInQE.Key)
+				w.QE.Next, w.QE.Issue = sn, si
+			}
+			old := cur.Clone()
+			old.Body = stale
+			w.PCS.Editions = map[string][]*world.Endpoint{route: {old, cur}}
+			for ai, a := range arts {
+				if ai < 3 || (route == world.RouteTcb && ai == 3) || (route == world.RouteQE && ai == 6) {
+					continue // the PCK chain is judged before any download; the stale document's own nextUpdate is not "another" artifact
+				}
+				ts := base
+				ts[a.field] = a.notAfter.Add(time.Second)
+				level := a.minLevel
+				check(fmt.Sprintf("stale-%s-edition-first+%s-expired", route, a.name), "stale-edition-first", nil, level, ts)
+			}
+			w.PCS.Editions = nil
+		}
+		r.Fault("pcs:stale_edition_served_first_then_current", true)
+		r.Probe("stale_edition_first_with_another_artifact_expired")
 		r.EndItem()
 	}
 	// monotone timeline: all five instants move together through every boundary; once
